@@ -582,10 +582,10 @@ func (fr *Frame) storeInstr(x *ssa.Store, st *State) {
 		fr.cellMeta[loc.Base] = v
 	}
 	if loc := fr.ptrLoc(p); loc != nil && loc.Kind == locCell {
-		if fr.cellVal == nil {
-			fr.cellVal = map[string]string{}
+		if fr.e.cellVal == nil {
+			fr.e.cellVal = map[string]string{}
 		}
-		fr.cellVal[loc.Base] = v.T
+		fr.e.cellVal[loc.Base] = v.T
 	}
 	fr.store(st, p, v, x.Pos())
 }
@@ -1131,7 +1131,7 @@ func (fr *Frame) unop(v *ssa.UnOp, st *State) {
 			if m, ok := fr.cellMeta[loc.Base]; ok {
 				nv.Clo, nv.Loc = m.Clo, m.Loc
 			}
-			if m, ok := fr.cellVal[loc.Base]; ok && e.localRefs[m] {
+			if m, ok := e.cellVal[loc.Base]; ok && e.localRefs[m] {
 				e.localRefs[nv.T] = true
 			}
 		}
